@@ -159,6 +159,9 @@ def check(ctx):
     succ = [n for n, cfid, nm in us.calls() if nm == BB + 'getIndex']
     ctx.floor('C12.R1.successors', len(succ), 3, 'successor index computations')
     pc = [n for n, cfid, nm in us.calls() if nm == BB + 'parse_index']
+    if len(pc) == 1 and len(kids(pc[0])) - 1 != 5:
+        raise AnalysisBroken('C12: parse_index is no longer called with an index and four out-parameters (side, white king, pawn, black '
+                             'king) in update_score; the successor rules follow those four variables by name')
     ctx.ob('C12.R1.decode', 'update_score', len(pc) == 1 and [cn(us, a) for a in kids(pc[0])[1:]] == ['idx', 'side', 'wKing', 'wPawn', 'bKing']
            and all(us.cfg.node_dominates(pc[0], s) for s in succ),
            'the position is decoded from the index being updated before any successor is formed', site=us.loc())
